@@ -1267,7 +1267,9 @@ class SearchAfterExtractor:
         index_of_last_sort = response_str.rfind('"sort"')
         last_sort_str = re.search(self.sort_pattern, response_str[index_of_last_sort::])
         if last_sort_str is not None:
-            return json.loads(last_sort_str.group(1))
+            # sort values may contain a closing bracket themselves, hence decode the array that starts here instead of cutting it out
+            start_of_array = response_str.index("[", index_of_last_sort + last_sort_str.start(1))
+            return json.JSONDecoder().raw_decode(response_str, start_of_array)[0]
         else:
             return None
 
